@@ -445,6 +445,7 @@ func cmdCheck(args []string) int {
 		_ = kid
 	}
 
+	interp.QLogDump()
 	if !*noEvidence && *only == "" {
 		writeEvidence(spec, *tier, seed, results, funcs, intercepts, assumes, violations, time.Since(start).Seconds(), *solver)
 	}
